@@ -20,6 +20,10 @@
 (*   (unary ^x on run-time values is refused by the compiler - "Unary.SSA not   *)
 (*    implemented yet" - and is therefore not part of the modelled core)       *)
 (*   loop   n op x y            v := x; for i := 0; i < n; i++ { v = v op y}*)
+(*   loopt  n op x y            v := x; for i, j := 0, 1; i < n; i, j = j, i+j { v = v op y } *)
+(*                              (a tuple assignment in the loop header: both    *)
+(*                              right-hand sides see the old i and j, so i runs *)
+(*                              through 0, 1, 1, 2, 3, 5, 8 ...)                *)
 (*   loopret n k op x y         the same loop with `if i == k { return v }`   *)
 (*                              in front of the body (a return guarded by the *)
 (*                              loop variable: decided while unrolling)       *)
@@ -172,7 +176,7 @@ TypesOf(p, n) ==   \* sequence of the types of variables 1..2+n
     ELSE LET ts == TypesOf(p, n - 1)
              s == p.stmts[n]
              t == CASE s.k = "const" -> <<s.t>>
-                    [] s.k \in {"bin", "binlit", "neg", "shift", "loop", "loopret", "looprc", "nest", "loopi", "shadow", "expr3"} -> <<ts[s.x]>>
+                    [] s.k \in {"bin", "binlit", "neg", "shift", "loop", "loopt", "loopret", "looprc", "nest", "loopi", "shadow", "expr3"} -> <<ts[s.x]>>
                     [] s.k \in {"cmp", "cmplit", "logic", "not"} -> <<BT>>
                     [] s.k = "cast" -> <<s.t>>
                     [] s.k \in {"if", "ifnest", "ifcall", "elseif"} -> <<ts[s.x]>>
@@ -239,6 +243,8 @@ AddStmt ==
                 \E z \in {v \in ints : ts[v] = ts[x]} : add(S("elseif", x, y, c1, "", <<z>>, c2))
           \/ "loop" \in Kinds /\ \E x \in ints : \E y \in {v \in ints : ts[v] = ts[x]} : \E op \in {"+", "-", "*", "^"} : \E n \in {0, 1, 3} :
                 add(S("loop", x, y, 0, op, <<>>, n))
+          \/ "loop" \in Kinds /\ \E x \in ints : \E y \in {v \in ints : ts[v] = ts[x]} : \E op \in {"+", "-", "^"} : \E n \in {2, 3, 5, 8} :
+                add(S("loopt", x, y, 0, op, <<>>, n))
           \/ "loopret" \in Kinds /\ \E x \in ints : \E y \in {v \in ints : ts[v] = ts[x]} : \E op \in {"+", "-", "^"} : \E n \in {1, 3} :
                 \E k \in 0..n : add(S("loopret", x, y, k, op, <<>>, n))
           \/ "loopret" \in Kinds /\ \E x \in ints : \E y \in {v \in ints : ts[v] = ts[x]} : \E op \in {"+", "-", "^"} : \E n \in {1, 3} :
@@ -317,6 +323,8 @@ Spec == Init /\ [][Next]_vars
 (***************************************************************************)
 (* The interpreter                                                         *)
 (***************************************************************************)
+\* how many members of 0, 1, 1, 2, 3, 5, 8, 13 lie below n (the iterations of `for i, j := 0, 1; i < n; i, j = j, i+j`)
+FibBelow(n) == Cardinality({k \in 1..8 : <<0, 1, 1, 2, 3, 5, 8, 13>>[k] < n})
 RECURSIVE Iter(_, _, _, _)
 Iter(op, k, acc, y) == IF k = 0 THEN acc ELSE Iter(op, k - 1, Bin(op, acc, y), y)
 
@@ -353,6 +361,7 @@ Exec(p, i, env) ==
                        LET RECURSIVE It(_, _)
                            It(k, acc) == IF k = 0 THEN acc ELSE It(k - 1, Bin(s.op, acc, y))
                        IN <<It(s.c, x)>>
+                  [] s.k = "loopt" -> <<Iter(s.op, FibBelow(s.c), x, y)>>
                   [] s.k \in {"loopret", "looprc"} -> <<Iter(s.op, s.c, x, y)>>
                   [] s.k = "nest" -> <<Iter(s.op, 2 * s.c, x, y)>>
                   [] s.k = "loopi" ->
